@@ -523,6 +523,72 @@ def run(ctx):
                    'belong to no token and no node, so the top-level nodes no longer reproduce the input' % short(st_.value, 50),
                    construct='LatexTokenReader.__init__: start position')
 
+    # ---- R01r: the white space in front of a token is never cut off an END position
+    ctx.rule('R01r', '`tok.pos - len(tok.pre_space)` -- the place where the white space in front of a token begins -- is used as '
+                     'a START (pos=, a position to move the reader to) only: that white space has been handed to the content '
+                     'before the token (a chars / whitespace node), so an end position computed this way lies before the end of '
+                     'the last child', 5)
+    n_ws = 0
+    for mod in sorted(repo.modules.values(), key=lambda m_: m_.name):
+        if not mod.name.startswith('pylatexenc.latexnodes') and not mod.name.startswith('pylatexenc.macrospec'):
+            continue
+        for x_ in ast.walk(mod.tree):
+            if not (isinstance(x_, ast.BinOp) and isinstance(x_.op, ast.Sub) and isinstance(x_.left, ast.Attribute)
+                    and x_.left.attr == 'pos' and isinstance(x_.right, ast.Call) and unparse(x_.right.func) == 'len'
+                    and len(x_.right.args) == 1 and unparse(x_.right.args[0]) == unparse(x_.left.value) + '.pre_space'):
+                continue
+            n_ws += 1
+            par_ = getattr(x_, '_parent', None)
+            role = None
+            if isinstance(par_, ast.keyword):
+                role = par_.arg
+            elif isinstance(par_, ast.Assign):
+                role = unparse(par_.targets[0])
+            elif isinstance(par_, ast.Call):
+                role = call_name(par_) + '()'
+            fq = enclosing_func(x_)
+            ctx.decide('R01r', not (role and 'end' in role.lower()), mod, x_,
+                       'start of the leading white space used as %s' % (role or 'a value'),
+                       '%s is set to %s: the white space in front of the token already belongs to the content before it, so this '
+                       'end lies inside (before the end of) the last child: the parent no longer covers its children'
+                       % (role, unparse(x_)), construct='%s: %s' % (getattr(fq, '_qualname', getattr(fq, 'name', '?')), role))
+
+    # ---- R01s: the marker text is the whole text of the tokens it spans
+    ctx.rule('R01s', 'LatexOptionalCharsMarkerParser: what is added to the marker text for a token is the whole text of that token '
+                     '(tok.arg, or the characters of a specials token), on every path of the reading loop: the chars node ends at '
+                     'the token\'s pos_end, so a shortened text would not equal the source at its span', 1)
+    om_ = repo.mod('pylatexenc.latexnodes.parsers._optionals')
+    ps_ = om_.functions.get('LatexOptionalCharsMarkerParser._parse_single')
+    lps_ = [l_ for l_ in iter_own(ps_) if isinstance(l_, ast.While)] if ps_ is not None else []
+    toks_ = [t_.targets[0].id for l_ in lps_ for t_ in iter_own(l_) if isinstance(t_, ast.Assign) and isinstance(t_.value, ast.Call)
+             and call_name(t_.value) == 'next_token' and isinstance(t_.targets[0], ast.Name)]
+    accn_ = [a_.target.id for l_ in lps_ for a_ in iter_own(l_) if isinstance(a_, ast.AugAssign) and isinstance(a_.op, ast.Add)
+             and isinstance(a_.target, ast.Name) and not isinstance(a_.value, ast.Constant)]
+    if not lps_ or not toks_ or not accn_:
+        ctx.unknown('R01s', om_, ps_, 'reading loop / token variable / accumulation not found', construct='chars marker: token text')
+    else:
+        tk_, acc_ = toks_[0], accn_[0]
+        try:
+            mcs = symex.Walker(want_exits=True, track_attrs=(tk_ + '.tok', tk_ + '.arg')).run_block(lps_[0].body)
+        except symex.TooManyPaths as e:
+            mcs = None
+            ctx.unknown('R01s', om_, lps_[0], str(e), construct='chars marker: token text')
+        if mcs is not None:
+            pieces = {}
+            for cs in mcs:
+                v_ = cs.env.get(acc_)
+                while isinstance(v_, ast.BinOp) and isinstance(v_.op, ast.Add):
+                    if not isinstance(v_.right, ast.Constant):
+                        pieces.setdefault(unparse(v_.right), cs)
+                    v_ = v_.left
+            whole = (tk_ + '.arg', tk_ + '.arg.specials_chars')
+            badp = sorted(t_ for t_ in pieces if t_ not in whole)
+            ctx.decide('R01s', bool(pieces) and not badp, om_, lps_[0],
+                       'pieces added to the marker text: %s' % sorted(pieces),
+                       'the marker text gets %s for a token, not the token\'s whole text (%s): the chars node still ends at the '
+                       'token\'s pos_end, so its text is shorter than the source it spans (`--` read as the marker `-`, the second '
+                       'dash belongs to no node)' % (badp[:2], ' / '.join(whole)), construct='chars marker: token text')
+
     return 'other', (
         'Span algebra at every construction site: for each chars node pos_end - pos - len(chars) '
         'normalises to 0 (affine normaliser with single-assignment inlining and the token-span '
